@@ -10,6 +10,11 @@
    SYSSHIM_SIGNAL=<call>:<path-substring>:<nth>:<signo> : raise(signo) right AFTER that call returned
    also interposed (logged, faultable): ftruncate (path fd<N>), alarm (logged only)
    SYSSHIM_PID=<n> / SYSSHIM_TIME=<t> : getpid() / time() return these (for name-collision scenarios)
+   SYSSHIM_GATE=<unix socket path> : scheduling gate for the trigger protocol (C16).  Before each of
+     link(*,*todo/*) | open(*lock/trigger) ["openw"/"openr"] | write/close on that descriptor |
+     opendir("todo") | readdir on it | select with a timeout > 0
+   the process sends "<pid> <op> <detail>\n" on its connection and waits for one byte.  Every select is
+   logged with its timeout ("select tv=<sec>").
    The shim changes nothing unless told to. */
 #define _GNU_SOURCE
 #include <dlfcn.h>
@@ -98,25 +103,73 @@ static int fault(const char *call, const char *path) {
 }
 #define REAL(name) static typeof(name) *real; if (!real) real = dlsym(RTLD_NEXT, #name)
 
+/* ---- scheduling gate ---- */
+#include <sys/socket.h>
+#include <sys/un.h>
+#include <sys/syscall.h>
+#include <sys/select.h>
+#include <dirent.h>
+static int gate_fd = -2;
+static int trig_fd = -1, trig_w = 0;
+static DIR *todo_dir = 0;
+static void gate(const char *op, const char *detail) {
+  char buf[300], ack; int n;
+  if (gate_fd == -2) {
+    const char *g = getenv("SYSSHIM_GATE");
+    gate_fd = -1;
+    if (g) {
+      struct sockaddr_un a; int fd = socket(AF_UNIX, SOCK_STREAM | SOCK_CLOEXEC, 0);
+      memset(&a, 0, sizeof a); a.sun_family = AF_UNIX; strncpy(a.sun_path, g, sizeof a.sun_path - 1);
+      if (fd >= 0 && connect(fd, (struct sockaddr *) &a, sizeof a) == 0) {
+        int f2 = fcntl(fd, F_DUPFD_CLOEXEC, 210); if (f2 >= 0) { syscall(SYS_close, fd); fd = f2; }
+        gate_fd = fd;
+      } else if (fd >= 0) syscall(SYS_close, fd);
+    }
+  }
+  if (gate_fd < 0) return;
+  n = snprintf(buf, sizeof buf, "%d %s %s\n", (int) syscall(SYS_getpid), op, detail ? detail : "");
+  if (syscall(SYS_write, gate_fd, buf, n) != n) { gate_fd = -1; return; }
+  while (syscall(SYS_read, gate_fd, &ack, 1) == -1 && errno == EINTR) ;
+}
+static int is_trigger(const char *p) { size_t n = strlen(p); return n >= 12 && !strcmp(p + n - 12, "lock/trigger"); }
+DIR *opendir(const char *name) { REAL(opendir); DIR *d; int se;
+  if (!strcmp(name, "todo")) gate("opendir", name);
+  d = real(name); se = errno; slog("opendir %s = %s", name, d ? "ok" : "NULL"); if (d && !strcmp(name, "todo")) todo_dir = d; errno = se; return d; }
+struct dirent *readdir(DIR *d) { REAL(readdir); struct dirent *e; int se;
+  if (d == todo_dir && d) gate("readdir", "todo");
+  e = real(d); se = errno; if (d == todo_dir) slog("readdir todo = %s", e ? e->d_name : "END"); errno = se; return e; }
+struct dirent64 *readdir64(DIR *d) { REAL(readdir64); struct dirent64 *e; int se;
+  if (d == todo_dir && d) gate("readdir", "todo");
+  e = real(d); se = errno; if (d == todo_dir) slog("readdir todo = %s", e ? e->d_name : "END"); errno = se; return e; }
+int closedir(DIR *d) { REAL(closedir); if (d == todo_dir && d) { slog("closedir todo"); todo_dir = 0; } return real(d); }
+int select(int n, fd_set *r, fd_set *w, fd_set *x, struct timeval *tv) { REAL(select); int rc, se; long sec = tv ? (long) tv->tv_sec : -1;
+  slog("select tv=%ld", sec);
+  if (sec > 0) { char b[32]; snprintf(b, sizeof b, "%ld", sec); gate("select", b); }
+  rc = real(n, r, w, x, tv); se = errno; slog("select = %d", rc); errno = se; return rc; }
+
 int unlink(const char *p) { REAL(unlink); int e = fault("unlink", p), r;
   if (e) { errno = e; slog("unlink %s = -1 %d INJECTED", p, e); return -1; }
   r = real(p); { int se = errno; slog("unlink %s = %d %d", p, r, r ? se : 0); errno = se; } return r; }
-int link(const char *a, const char *b) { REAL(link); int e = fault("link", b), r;
+int link(const char *a, const char *b) { REAL(link); int e, r;
+  if (strstr(b, "todo/")) gate("link", b);
+  e = fault("link", b);
   if (e) { errno = e; slog("link %s %s = -1 %d INJECTED", a, b, e); return -1; }
   r = real(a, b); { int se = errno; slog("link %s %s = %d %d", a, b, r, r ? se : 0); errno = se; } after("link", b); return r; }
 int rename(const char *a, const char *b) { REAL(rename); int e = fault("rename", b), r;
   if (e) { errno = e; slog("rename %s %s = -1 %d INJECTED", a, b, e); return -1; }
   r = real(a, b); { int se = errno; slog("rename %s %s = %d %d", a, b, r, r ? se : 0); errno = se; } return r; }
-int open(const char *p, int fl, ...) { REAL(open); mode_t m = 0; int e, r;
+int open(const char *p, int fl, ...) { REAL(open); mode_t m = 0; int e, r; int trg = is_trigger(p);
   if (fl & O_CREAT) { va_list ap; va_start(ap, fl); m = va_arg(ap, mode_t); va_end(ap); }
+  if (trg) gate((fl & O_ACCMODE) == O_WRONLY ? "openw" : "openr", p);
   e = fault("open", p);
   if (e) { errno = e; slog("open %s %o = -1 %d INJECTED", p, fl, e); return -1; }
-  r = real(p, fl, m); { int se = errno; slog("open %s %o = %d %d", p, fl, r, r < 0 ? se : 0); errno = se; } return r; }
-int open64(const char *p, int fl, ...) { REAL(open64); mode_t m = 0; int e, r;
+  r = real(p, fl, m); { int se = errno; slog("open %s %o = %d %d", p, fl, r, r < 0 ? se : 0); if (trg && r >= 0) { trig_fd = r; trig_w = (fl & O_ACCMODE) == O_WRONLY; } errno = se; } return r; }
+int open64(const char *p, int fl, ...) { REAL(open64); mode_t m = 0; int e, r; int trg = is_trigger(p);
   if (fl & O_CREAT) { va_list ap; va_start(ap, fl); m = va_arg(ap, mode_t); va_end(ap); }
+  if (trg) gate((fl & O_ACCMODE) == O_WRONLY ? "openw" : "openr", p);
   e = fault("open", p);
   if (e) { errno = e; slog("open %s %o = -1 %d INJECTED", p, fl, e); return -1; }
-  r = real(p, fl, m); { int se = errno; slog("open %s %o = %d %d", p, fl, r, r < 0 ? se : 0); errno = se; } return r; }
+  r = real(p, fl, m); { int se = errno; slog("open %s %o = %d %d", p, fl, r, r < 0 ? se : 0); if (trg && r >= 0) { trig_fd = r; trig_w = (fl & O_ACCMODE) == O_WRONLY; } errno = se; } return r; }
 int fsync(int fd) { REAL(fsync); char nm[32]; int e, r; snprintf(nm, sizeof nm, "fd%d", fd); e = fault("fsync", nm);
   if (e) { errno = e; slog("fsync %d = -1 %d INJECTED", fd, e); return -1; }
   r = real(fd); { int se = errno; slog("fsync %d = %d %d", fd, r, r ? se : 0); errno = se; } after("fsync", nm); return r; }
@@ -129,6 +182,8 @@ int flock(int fd, int op) { REAL(flock); char nm[32]; int e, r; snprintf(nm, siz
   r = real(fd, op); { int se = errno; slog("flock %d %d = %d %d", fd, op, r, r ? se : 0); errno = se; } return r; }
 int close(int fd) { REAL(close); char nm[32]; int e, r;
   if (fd == logfd) return 0;
+  if (fd == gate_fd && fd >= 0) return 0;
+  if (fd == trig_fd && fd >= 0) { gate(trig_w ? "closew" : "closer", "lock/trigger"); trig_fd = -1; }
   if (nrules > 0) { snprintf(nm, sizeof nm, "fd%d", fd); e = fault("close", nm);
     if (e) { real(fd); errno = e; slog("close %d = -1 %d INJECTED", fd, e); return -1; } }
   r = real(fd); if (fd >= 3) { int se = errno; slog("close %d = %d", fd, r); errno = se; } return r; }
@@ -181,11 +236,13 @@ struct group *getgrnam(const char *name) {
 ssize_t write(int fd, const void *buf, size_t n) {
   REAL(write); static int wfd = -2; ssize_t r; char nm[32]; int e;
   if (wfd == -2) { const char *x = getenv("SYSSHIM_LOGWRITE"); wfd = x ? (!strcmp(x, "all") ? -3 : atoi(x)) : -1; }
+  if (fd == trig_fd && fd >= 0 && trig_w) { gate("write", "lock/trigger"); }
   if (fd != logfd && (nrules != 0 || have_k != 0)) {
     snprintf(nm, sizeof nm, "fd%d", fd); e = fault("write", nm);
     if (e) { errno = e; if (wfd != -1) slog("write %d %zu - = -1 %d INJECTED", fd, n, e); return -1; }
   }
   r = real(fd, buf, n);
+  if (fd == trig_fd && fd >= 0 && trig_w) { int se = errno; slog("write trigger = %zd %d", r, r < 0 ? se : 0); errno = se; }
   if ((fd == wfd || wfd == -3) && fd != logfd) { char hex[130]; size_t i, m = n < 64 ? n : 64; int se = errno;
     for (i = 0; i < m; i++) sprintf(hex + 2 * i, "%02x", ((const unsigned char *) buf)[i]);
     hex[2 * m] = 0; if (!m) strcpy(hex, "-"); slog("write %d %zu %s = %zd %d", fd, n, hex, r, r < 0 ? se : 0); errno = se; }
